@@ -3,7 +3,17 @@
 pub mod accessors;
 pub mod alloc_count;
 #[cfg(feature = "std")]
+pub mod blockclient;
+#[cfg(feature = "std")]
+pub mod blocktransfer;
+#[cfg(feature = "std")]
 pub mod blockval;
+#[cfg(feature = "std")]
+pub mod expiry;
+#[cfg(feature = "std")]
+pub mod hostile;
+#[cfg(feature = "std")]
+pub mod isolation;
 pub mod codec;
 pub mod ctx;
 pub mod glue;
@@ -32,7 +42,19 @@ pub fn dispatch(ctx: &mut ctx::Ctx) -> bool {
         "C06" => optval::run_c06(ctx),
         "C07" => respcorr::run_c07(ctx),
         #[cfg(feature = "std")]
+        "C08" => blocktransfer::run_c08(ctx),
+        #[cfg(feature = "std")]
+        "C09" => blocktransfer::run_c09(ctx),
+        #[cfg(feature = "std")]
+        "C10" => blocktransfer::run_c10(ctx),
+        #[cfg(feature = "std")]
+        "C11" => hostile::run_c11(ctx),
+        #[cfg(feature = "std")]
+        "C12" => isolation::run_c12(ctx),
+        #[cfg(feature = "std")]
         "C13" => blockval::run_c13(ctx),
+        #[cfg(feature = "std")]
+        "C20" => expiry::run_c20(ctx),
         "C14" => obsmodel::run_observe(ctx, "C14"),
         "C15" => obsmodel::run_observe(ctx, "C15"),
         "C16" => linkfmt::run_c16(ctx),
